@@ -297,6 +297,16 @@ pub fn o_time(a: &Analysis) -> Vec<Violation> {
             _ => continue,
         };
         let timed_out = matches!(r.res, Res::SendErr(E::Timeout) | Res::RecvErr(E::Timeout));
+        // promptness (bounded liveness): without stalls, freezes or clock jumps a timed-out call spends about three
+        // of its own decisions per microsecond of its duration (clock read, state load, yield) plus a constant
+        let k = &a.d.case.knobs;
+        let calm = k.p_stall == 0 && k.p_cs_freeze == 0 && k.freeze.is_none() && k.time == TimeS::Tick;
+        if timed_out && calm && r.own as u64 > 4 * us + 300 {
+            out.push(v(
+                format!("time/late@{}", r.op.kind()),
+                format!("{:?} reported Timeout only after {} decisions of its own (its {} us duration needs about {})", r.op, r.own, us, 3 * us + 40),
+            ));
+        }
         if timed_out && r.vt1 < r.vt0 + us * 1000 {
             out.push(v(
                 format!("time/early@{}", r.op.kind()),
